@@ -173,6 +173,10 @@ def run_job(job):
         # zip members (they are filtered by the same WHERE)
         for dn in ("d0", "d1", "d2"):
             os.makedirs(os.path.join(root, dn), exist_ok=True)
+        if job["kind"] != "exhaustive" and rng.random() < 0.25:
+            # entries whose path is longer than PATH_MAX: they have attributes like any other, so A and not A split them too
+            tree.make_beyond_path_max(os.path.join(root, "d2"), len("t/d2"))
+            res.count("trees_with_entries_beyond_path_max")
         with zipfile.ZipFile(os.path.join(root, "d1", "pack.zip"), "w") as z:
             for nm, size in (("abc", 50), ("abc.txt", 150), ("xyz", 100), ("a", 101), ("B", 99), ("a*", 10), ("sub/abc", 500)):
                 z.writestr(nm, b"z" * size)
